@@ -31,6 +31,15 @@ CHECKS = {
              "must be dimensionless, independent and of size n - rank. Exhaustive over the pair domain in the thorough tier, seed-strided in quick.",
         note="Float/Decimal exponents restricted to dyadic rationals (no rounding artefacts). Integrality of pi-theorem exponents is not part of the statement and not asserted.",
         design="5/C04"),
+    "C08": dict(
+        technique="bounded-exhaustive enumeration of all prefix x spelling x plural strings (1.3e5) against the decomposition rule computed by an independent definition reader; Hypothesis mutated/random strings; op-sequence (model-based) lookup histories compared with fresh registries; cross-process determinism probe",
+        text="Every string p+u+s over the 72 prefix spellings, ~900 unit spellings and the optional plural is resolved and compared with R's tables: exact "
+             "spellings first, unique reading -> canonical name/symbol/prefix value applied once, several readings -> membership, none -> UndefinedUnitError; "
+             "mutated and random identifiers must be rejected; case variants are checked with case_sensitive=False per call and per registry and under 4 hash "
+             "seeds in sub-processes; offset units in compound strings x as_delta/default_as_delta; lookup histories must answer like a fresh registry. "
+             "The cross product is exhaustive; the rest is sampled.",
+        note="Among several genuine readings of one string only membership and determinism are asserted (the statement does not rank them). Two known findings (double prefixes) are listed in known_findings.json.",
+        design="5/C08"),
     "C20": dict(
         technique="complete enumeration of an independently curated table of ~260 standard values x spellings x {Fraction, float} registries (differential oracle: the table)",
         text="Each entry of data/standards.txt (SI and binary prefixes, SI units, defining constants, yard/pound multiples, US/imperial capacity, avoirdupois/"
